@@ -115,45 +115,41 @@ def decS (bs : Bytes) : R (Val × Bytes) :=
 /-- `Input::decode_dynamic`: `match self { Input::CoinSigned(coin) => coin.decode_dynamic(buffer), .. }` -/
 def decD (p : Val) (bs : Bytes) : R (Val × Bytes) := Canonical.decD env0 encDesc p bs
 
-/-- length of the byte vector inside a `Bytes` / `PredicateCode` value -/
-def lenOf : Val → Option Nat
-  | .bytes bs => some bs.length
-  | .cap n => some n
-  | .pair a .unit => lenOf a
-  | _ => none
-
-/-- the emptiness conditions under which the decoder picks the variant the value was built as:
-a predicate variant has a non-empty predicate, a message-data variant non-empty data
-(the `Empty` fields are empty by type) -/
-def variantMatches (i : Nat) (payload : Val) : Bool :=
-  match inputVariants[i]? with
-  | none => false
-  | some r =>
-    let nonEmpty (f : String) : Bool :=
-      match (getField r.2.2.1 f payload).bind lenOf with
-      | some n => n != 0
-      | none => false
-    (if r.2.2.2 == "Predicate" || r.2.2.2 == "MessageCoin<Predicate>" || r.2.2.2 == "MessageData<Predicate>" then nonEmpty "predicate" else true) &&
-    (if r.2.2.2 == "MessageData<Signed>" || r.2.2.2 == "MessageData<Predicate>" then nonEmpty "data" else true)
-
 /-- variant index and payload of an enum value -/
 def unVariant : Val → Option (Nat × Val)
   | .inl v => some (0, v)
   | .inr v => (unVariant v).map (fun p => (p.1 + 1, p.2))
   | _ => none
 
-/-- inputs the round trip is claimed for (`Input::wf` of DESIGN §5.A) -/
-def wt (v : Val) : Bool :=
-  Canonical.wt env0 encDesc v &&
-  match unVariant v with
-  | some (i, p) => variantMatches i p
+/-- the length word of field `f` of the partial payload is non-zero -/
+def capNonzero (structName f : String) (payload : Val) : Bool :=
+  match (getField structName f payload).bind capOf with
+  | some n => n != 0
   | none => false
 
-/-- partial inputs `decS` produces -/
-def pwt (v : Val) : Bool :=
-  match unVariant v with
-  | some (i, p) => variantMatches i p
+/-- on a *partial* input (what `decode_static` returns): the emptiness conditions under which the decoder
+picks this variant — a predicate variant has a non-empty predicate, a message-data variant non-empty
+data (the `Empty` fields are empty by type) -/
+def matchesP (p : Val) : Bool :=
+  match unVariant p with
   | none => false
+  | some (i, payload) =>
+    match inputVariants[i]? with
+    | none => false
+    | some r =>
+      (if r.2.2.2 == "Predicate" || r.2.2.2 == "MessageCoin<Predicate>" || r.2.2.2 == "MessageData<Predicate>"
+        then capNonzero r.2.2.1 "predicate" payload else true) &&
+      (if r.2.2.2 == "MessageData<Signed>" || r.2.2.2 == "MessageData<Predicate>"
+        then capNonzero r.2.2.1 "data" payload else true)
+
+/-- inputs the round trip is claimed for (`Input::wf` of DESIGN §5.A): values of the seven variant
+structs whose predicate / data are non-empty where the variant has them -/
+def wt (v : Val) : Bool :=
+  Canonical.wt env0 encDesc v && matchesP (Canonical.partialOf env0 encDesc v)
+
+/-- partial inputs `decS` produces -/
+def pwt (p : Val) : Bool :=
+  Canonical.pwt env0 encDesc p && matchesP p
 
 def codec : Codec where
   encS := Canonical.encS env0 encDesc
